@@ -1,10 +1,10 @@
 /-
 C16 — transliteration of /repo/embedded/store/tx_metadata.go (decoding side).
 
-One Lean def per Go function, same checks in the same order.  `fx : Fix` selects the code that
-EXISTS (`Fix.none`, used by the driver and by the witness theorems) or the same code with missing
-guards added (one flag per guard; the guard lines are marked FIX) — the latter only serves the
-"the guard is sufficient" theorems in Props/C16.lean.
+One Lean def per Go function, same checks in the same order.  `fx : Fix` selects which of the guards the
+framework found missing are part of the code (one flag per guard; the guard lines are marked FIX):
+`Fix.current` = the code that EXISTS (used by the driver and by the property theorems), `Fix.none` = the
+code before the repairs (only serves the "guard is needed" witnesses in Props/C16.lean).
 -/
 import ImmuModel.Base.GoSlice
 import ImmuModel.Gen.Consts
@@ -47,18 +47,21 @@ def truncatedUptoTxAttr_deserialize (b : Bytes) : M (TxAttr × Nat) :=
 ```go
 func (a *extraAttribute) deserialize(b []byte) (int, error) {
 	if len(b) < sszSize { return 0, ErrCorruptedData }
-	a.extra = make([]byte, binary.BigEndian.Uint16(b))
+	n := int(binary.BigEndian.Uint16(b))
+	if n > maxExtraLen || len(b) < sszSize+n { return 0, ErrCorruptedData }     // FIX extraLen
+	a.extra = make([]byte, n)
 	copy(a.extra, b[sszSize:])
 	return sszSize + len(a.extra), nil
 }
 ```
-The declared length is NOT compared with `len(b)`: the returned `n` can exceed the buffer. -/
+Without the guard (`fx.extraLen = false`, the code before the repair) the declared length is NOT compared
+with `len(b)` nor with `maxExtraLen`: the returned `n` can exceed the buffer. -/
 def extraAttr_deserialize (fx : Fix) (b : Bytes) : M (TxAttr × Nat) :=
   if b.length < storeSszSize then M.fail .corruptedData
   else do
     let n ← rdU16 b
-    -- FIX (absent in the code): if len(b) < sszSize+n { return 0, ErrCorruptedData }
-    if fx.extraLen && b.length < storeSszSize + n then M.fail .corruptedData
+    -- FIX extraLen: if n > maxExtraLen || len(b) < sszSize+n { return 0, ErrCorruptedData }
+    if fx.extraLen && (n > storeMaxExtraLen || b.length < storeSszSize + n) then M.fail .corruptedData
     else do
       let extra0 ← make n
       let src ← sliceFrom b storeSszSize
